@@ -50,7 +50,7 @@ LEVEL = "exploration"
 ENGINE = "E1-SEQ"
 SHARDS = {"quick": 8, "thorough": 16}
 RULE = (
-    "full product route{unary,init,exchange} x method class (4-5 per route) x body kind (11 unary/init, 12 exchange incl. "
+    "full product route{unary,init,exchange} x method class (4-6 per route) x body kind (12 unary/init, 13 exchange incl. "
     "token faults) x content type (3 quick / 4 thorough) x content encoding (6 quick / 11 thorough) x auth{off,rejecting} "
     "x oversize{no,yes}; one evaluation = one HTTP request through the real WSGI app; "
     "non-trivial class = (route, set of faults present, observed status)"
@@ -137,6 +137,15 @@ def decode_body(data: bytes) -> dict[str, Any]:
     return res
 
 
+def local_decode_exc(data: bytes) -> str:
+    """Class name of what pyarrow raises when asked for the first batch of *data* (finding keys only)."""
+    try:
+        pa.ipc.open_stream(io.BytesIO(data)).read_next_batch()
+    except BaseException as e:  # noqa: BLE001
+        return type(e).__name__
+    return "none"
+
+
 # ------------------------------------------------------------------------------ apps and tokens
 
 
@@ -218,9 +227,9 @@ METHODS = {
 }
 FAILS = {("unary", "fail"), ("init", "fail"), ("init", "fail-inband"), ("exchange", "fail")}
 
-BODIES_CALL = ["valid", "corrupt-head", "truncated", "empty", "schema-only", "garbage", "no-method", "no-version", "bad-version", "method-mismatch", "two-rows"]
+BODIES_CALL = ["valid", "corrupt-head", "corrupt-meta", "truncated", "empty", "schema-only", "garbage", "no-method", "no-version", "bad-version", "method-mismatch", "two-rows"]
 BODIES_EXCH = [
-    "valid", "corrupt-head", "truncated", "empty", "schema-only", "garbage",
+    "valid", "corrupt-head", "corrupt-meta", "truncated", "empty", "schema-only", "garbage",
     "no-state-token", "tampered-state-token", "garbage-state-token", "empty-state-token", "tampered-call-token", "no-call-token",
 ]  # fmt: skip
 CTYPES_Q = ["right", "wrong", "missing"]
@@ -315,6 +324,7 @@ def valid_body(env: Env, route: str, mclass: str, big: bool, variant: str) -> by
 
 BODY_FAULT = {
     "corrupt-head": ("malformed-ipc", 400, True),
+    "corrupt-meta": ("malformed-ipc", 400, True),
     "truncated": ("malformed-ipc", 400, True),
     "empty": ("malformed-ipc", 400, True),
     "schema-only": ("malformed-ipc", 400, True),
@@ -336,6 +346,8 @@ BODY_FAULT = {
 def mangle(body: bytes, variant: str, big: bool) -> bytes | None:
     if variant == "corrupt-head":
         return b"\xab" * 8 + body[8:]
+    if variant == "corrupt-meta":
+        return body[:16] + b"\xab" * 32 + body[48:]
     if variant == "truncated":
         return body[: len(body) // 2]
     if variant == "empty":
@@ -444,16 +456,25 @@ def one(ctx: Ctx, env: Env, route: str, mclass: str, bodyk: str, ctk: str, enc: 
         nontrivial=(route, tuple(fnames), status),
         outcome=(status, bool(marker), dec["arrow"], dec["error_batch"]),
     )
+    bf = BODY_FAULT.get(bodyk)
+    btag = None if bf is None else (f"{bf[0]}/{local_decode_exc(raw2)}" if bf[0] == "malformed-ipc" else bodyk)
+    primary = [mfault[0]] if mfault is not None else ([btag] if btag is not None else [])
+    tag = "+".join(primary) if primary else ("+".join(fnames) or "none")
     if status >= 500:
-        ctx.fail(f"5xx:{route}:{'+'.join(fnames) or 'none'}", f"{desc}: status {status}", rep)
+        ctx.fail(f"5xx:{route}:{tag}", f"{desc}: status {status}", rep)
         return
     if status not in admissible:
-        ctx.fail(f"status-not-admissible:{status}:{route}:{'+'.join(fnames) or 'none'}", f"{desc}: status {status}, admissible {sorted(admissible)}", rep)
+        ctx.fail(f"status-not-admissible:{status}:{route}:{tag}", f"{desc}: status {status}, admissible {sorted(admissible)}", rep)
     if status not in (401, 415) and not dec["arrow"]:
-        cause = "+".join(sorted({f[0] for f in faults if f[1] == status})) or "none"
+        title = "non-json"
+        try:
+            title = str(json.loads(content.decode("utf-8")).get("title", "json-without-title"))
+        except Exception:  # noqa: BLE001
+            pass
         ctx.fail(
-            f"body-not-arrow:{status}:{cause}",
-            f"{desc}: status {status} with content-type {rh.get('content-type')!r} and a body that is not a decodable Arrow IPC stream",
+            f"body-not-arrow:{status}:{title}",
+            f"{desc}: status {status} with content-type {rh.get('content-type')!r} and a body that is not a decodable Arrow IPC stream "
+            f"(body starts {content[:80]!r})",
             rep,
         )
     if status == 200 and dec["arrow"]:
